@@ -169,6 +169,13 @@ def compare_structure(ex, tf, raw_ts=False, check_props=True, check_order=True):
         got_declared = [g for g in groups if g in set(declared)]
         if got_declared != declared:
             out.append(('order', 'declared group order %r, expected %r' % (got_declared, declared)))
+    # the mapping protocol must report the same names as groups() / channels()
+    try:
+        listed = list(iter(tf))
+        if listed != groups or len(tf) != len(groups) or any(g not in tf for g in groups):
+            out.append(('objects', 'iter(file) %r / len(file) %d / "in" disagree with groups() %r' % (listed, len(tf), groups)))
+    except Exception as e:      # noqa
+        out.append(('objects', 'iterating the file object raised %s: %s' % (type(e).__name__, e)))
     if check_props:
         rp = ex.objects.get('/', {'props': {}})['props']
         for m in compare_props(rp, tf.properties, 'root', raw_ts):
@@ -178,6 +185,13 @@ def compare_structure(ex, tf, raw_ts=False, check_props=True, check_order=True):
         if grp.name != gname:
             out.append(('objects', 'group looked up as %r reports name %r' % (gname, grp.name)))
         chans = [c.name for c in grp.channels()]
+        try:
+            listed = list(iter(grp))
+            if listed != chans or len(grp) != len(chans) or any(c not in grp for c in chans):
+                out.append(('objects', 'group %r: iter(group) %r / len(group) %d / "in" disagree with channels() %r' % (
+                    gname, listed, len(grp), chans)))
+        except Exception as e:      # noqa
+            out.append(('objects', 'iterating group %r raised %s: %s' % (gname, type(e).__name__, e)))
         exp_ch = ex.channels_of(gname)
         if sorted(chans) != sorted(exp_ch) or len(chans) != len(set(chans)):
             out.append(('objects', 'group %r channels %r, expected %r' % (gname, chans, exp_ch)))
